@@ -373,7 +373,7 @@ def _trace_real_contract(mask, reflective):
             for i in range(3):
                 c.ensure_eq('C02.trace_real.snell_in_surface_frame', n1 * a[i], n2 * b[i])
         # optical path: index in front of the surface times geometric length (|t|, unit direction)
-        c.ensure_eq('C02.trace_real.opd_adds_index_times_length', c.val(surf.opd), opd0 + n1 * c.abs(t))
+        c.ensure_eq('C02.trace_real.opd_adds_index_times_length', c.val(surf.opd), opd0 + c.abs(n1 * t))   # n1 > 0: |n1 t| = n1 |t|
         c.ensure_eq('C02.trace_real.rays_left_in_global_frame', c.val(rays.x), c.val(surf.x))
         c.ensure_eq('C02.trace_real.intensity_recorded', c.val(surf.intensity), c.val(rays.i))
     return tr
